@@ -48,8 +48,13 @@ DERIVED = {
     ("IdenticalCompuMethod", "category"), ("LinearCompuMethod", "category"), ("ScaleLinearCompuMethod", "category"),
     ("TexttableCompuMethod", "category"), ("TabIntpCompuMethod", "category"), ("RatFuncCompuMethod", "category"),
     ("CompuCodeCompuMethod", "category"), ("ComparamSubset", "category"),
+    # an XML choice: OUT-PARAM-IF-SNREF or OUT-PARAM-IF-SNPATHREF (the base databases use the former)
+    ("MatchingParameter", "out_param_if_snpathref"), ("MatchingBaseVariantParameter", "out_param_if_snpathref"),
 }
 
+
+# reference lists whose resolved objects are kept in a dataclass field of their own (emptying the references alone is inconsistent)
+DERIVED_LISTS = {("EnvironmentDataDescription", "env_data_refs")}
 
 # element text the parser reads with Element.text: an empty element and an absent value are the same document
 EMPTY_IS_ABSENT = {("Limit", "value_raw"), ("ExternalDoc", "description")}
@@ -416,6 +421,8 @@ def process_sessions(args: Tuple[List[Dict[str, Any]], int]) -> Dict[str, Any]:
                 ok, nv = pdx.new_value(type(o), f, getattr(o, f), hint)
                 if job["site"].get("kind") == "empty":
                     nv = ""
+                if job["site"].get("kind") == "emptied":
+                    nv = []
                 have("h1", db)
                 setattr(o, f, nv)
                 st["perturbations"] += 1
@@ -459,6 +466,10 @@ def enumerate_sites(bases: List[str]) -> List[Dict[str, Any]]:
             if opt and (t is str) and old != "" and type(o).__name__ != "Description" and (type(o).__name__, f) not in EMPTY_IS_ABSENT:
                 # an empty string is a value, not an absent attribute
                 out.append({"base": b, "site": {"path": path, "class": type(o).__name__, "field": f, "was_none": old is None, "kind": "empty"}})
+        for (path, o, f) in pdx.list_sites(db):
+            if (type(o).__name__, f) in DERIVED_LISTS:
+                continue
+            out.append({"base": b, "site": {"path": path, "class": type(o).__name__, "field": f, "was_none": False, "kind": "emptied"}})
     return out
 
 
